@@ -5,3 +5,11 @@ pub mod forcefield;
 mod nonbonded;
 pub mod rb;
 pub mod uff;
+
+#[cfg(optrs_verif)]
+pub use self::{
+    angles::{HarmonicAngleTypeA, HarmonicAngleTypeB},
+    bonds::HarmonicBond,
+    dihedrals::{InversionDihedral, TorsionalDihedral},
+    nonbonded::{LennardJones12x6, RepulsiveInverseDistance},
+};
